@@ -38,7 +38,7 @@ pub fn gen(seed: u64, tier: Tier) -> ScenarioSpec {
     let mut rec = gen::gen_recorder(&mut rng, &cfg);
     if newer {
         // extra trailing bytes on known events (0..k), Start and End included
-        for code in [L::CODE_START, L::CODE_PRE, L::CODE_POST, L::CODE_END, L::CODE_FSTART, L::CODE_ITEM, L::CODE_FEND] {
+        for code in [L::CODE_START, L::CODE_PRE, L::CODE_POST, L::CODE_END, L::CODE_FSTART, L::CODE_ITEM, L::CODE_FEND, L::CODE_SPLITTER] {
             if rng.chance(2, 3) {
                 let k = match rng.below(4) {
                     0 => 1,
@@ -145,7 +145,8 @@ pub fn run(spec: &ScenarioSpec, ctx: &mut Ctx) -> Result<(), Violation> {
     let Some(game) = s1_read(P, spec, &m, ctx, false)? else { return Ok(()) };
     // differential against the twin
     // quirk flags are derived, not a field of any event: compared only when the known events are byte-identical
-    let mask = CmpMask { frames: true, hash: false, quirks: !trailing, start_bytes: !trailing };
+    // (the duplicated-Game-End flag is derived from the event sequence, which is the same with and without the extras)
+    let mask = CmpMask { frames: true, hash: false, quirks: true, start_bytes: !trailing };
     let n = cmp_games(&game, &twin, mask).map_err(|(s, msg)| Violation::new(P, "field-mismatch", format!("with-extras-vs-without {}", s), msg))?;
     ctx.checks(n);
     // and against the model directly
